@@ -53,25 +53,37 @@ def generate_cases(tier, ev, vals, tagp):
     exhaustive = []
     if tier == "quick":
         plan = [("empty", 3, ("h1", "h2"), 4, None), ("alias", 2, ("h1", "h2", "h3"), 4, None),
-                ("full4", 2, ("h1", "h2"), 5, None), ("full8", 2, ("h1", "h2"), 9, ["u8"])]
+                ("full4", 2, ("h1", "h2"), 5, None), ("full8", 2, ("h1", "h2"), 9, ["u8"]),
+                ("wempty+concat", 3, ("h1", "h2"), 3, ["u64", "tr24"])]
         walks = (60, 14)
     else:
         plan = [("empty", 4, ("h1", "h2"), 4, None), ("empty", 3, ("h1", "h2", "h3"), 4, None),
                 ("alias", 3, ("h1", "h2"), 4, None), ("alias", 2, ("h1", "h2", "h3"), 4, None),
                 ("full4", 3, ("h1", "h2"), 5, None), ("full4", 2, ("h1", "h2", "h3"), 5, None),
-                ("full8", 2, ("h1", "h2", "h3"), 9, ["u8", "tr24"])]
+                ("full8", 2, ("h1", "h2", "h3"), 9, ["u8", "tr24"]),
+                ("wempty+concat", 3, ("h1", "h2"), 3, None), ("wempty+concat", 3, ("h1", "h2", "h3"), 4, ["u64", "tr24"])]
         walks = (400, 40)
     opcount = {}
-    for (init, n, hs, maxlen, only) in plan:
+    for (init0, n, hs, maxlen, only) in plan:
+        init, _, flt = init0.partition("+")
         cfg = os.path.join(d, "mc_%s_%s_%d_%d.cfg" % (tagp, init, n, len(hs)))
-        mc_cfg(cfg, vals, n, init, hs, maxlen)
+        if init == "wempty" and tier == "quick":
+            mc_cfg(cfg, vals, n, init, hs, maxlen, getidx=[0, 2], swapidx=[0, 1])
+        else:
+            mc_cfg(cfg, vals, n, init, hs, maxlen)
         r = run_tlc("MCListSeq", cfg, workers=6, timeout=1500, heap="8g", coverage=False)
         require_tlc_ok(r, "MCListSeq %s N=%d" % (init, n))
         ev.add_tlc(r)
-        for c in r.replay:
+        got = r.replay
+        if flt == "concat":
+            # of all behaviours from "a list next to an empty list" keep those that concatenate first,
+            # then mutate, then observe (concatenation must give a fresh list, also with an empty operand)
+            got = [c for c in got if c["ops"][0]["op"] == "concat"
+                   and c["ops"][1]["op"] in ("push", "swap", "iter_push")]
+        for c in got:
             c["only"] = only
-        cases.extend(r.replay)
-        exhaustive.append("%s:N=%d:handles=%d:%d behaviours" % (init, n, len(hs), len(r.replay)))
+        cases.extend(got)
+        exhaustive.append("%s:N=%d:handles=%d:%d behaviours%s" % (init, n, len(hs), len(got), " (filtered: concat, mutate, *)" if flt else ""))
     # seeded random walks (simulation mode): deeper histories
     num, depth = walks
     for init in ("empty", "full4"):
